@@ -31,14 +31,14 @@ ANCHORS = ['loki/transformations/temporaries/hoist_variables.py', 'loki/transfor
 REQUIRED_REACH = ['find_variables', 'driver_variable_declaration', 'apply_pool_allocator_to_temporaries',
                   '_determine_stack_size', 'create_pool_allocator', 'apply_raw_stack_allocator_to_temporaries',
                   '_map_temporary_array', 'create_stacks_driver']
-REQUIRED_COUNTERS = {'program_runs': 60, 'pipelines_applied': 30}
+REQUIRED_COUNTERS = {'program_runs': 40, 'pipelines_applied': 20}
 ASSUMPTIONS = ['gfortran 12 -O0 -fcheck=all -fcray-pointer + ASan/UBSan is the reference semantics',
                'generated programs are well-defined by construction (original must build and run clean, else the '
                'case is inconclusive)',
                'kind module parkind1 belongs to the input project (disabled in the scheduler config); int_kind of the '
                'index-stack variants is a kind the kernels import',
                'CONTIGUOUS on explicit-shape stack dummies is stripped by the harness after being reported']
-BUDGET_S = {'quick': 900, 'thorough': 6000}
+BUDGET_S = {'quick': 3000, 'thorough': 9000}
 CASE_TIMEOUT_S = 1500
 
 HB = {'horizontal': '@horizontal', 'block_dim': '@block_dim'}
@@ -92,7 +92,9 @@ def mk(rng, kind, flags, opts):
     if kind == 'rawstack':
         return {'name': kind, 'family': kind, 'steps': [('TemporariesRawStackTransformation', dict(HB))]}
     # SCC pipelines with an allocator / hoisting stage
-    kw = dict(HB, directive=rng.choice([None, 'openacc']), int_kind='jpim')
+    kw = dict(HB, int_kind='jpim')
+    if rng.random() < 0.5:
+        kw['directive'] = 'openacc'
     if 'Stack' in kind:
         kw['check_bounds'] = rng.random() < 0.8
     if 'Hoist' in kind:
@@ -102,7 +104,10 @@ def mk(rng, kind, flags, opts):
             'shim_contiguous': 'FtrPtr' in kind or 'DirectIdx' in kind}
 
 
-# slot options: 'posargs' hoisting with positional actuals on keyword calls, 'rawkw' raw stack on keyword calls
+# slot options: 'litkind' temporaries declared with literal kinds (REAL(KIND=8)), 'modimp' kind parameters imported
+# in the module specification part instead of in the routines,
+# 'posargs' hoisting with positional actuals on keyword calls, 'rawkind' raw stack under a driver that does not
+# itself import the kinds of the kernels' temporaries (C37 covers raw stack on calls with keywords)
 ROT = [
     ('hoist-auto', 'pool', ()),
     ('hoist-alloc', 'pool', ()),
@@ -113,13 +118,13 @@ ROT = [
     ('ftrptr', 'hoist-auto', ()),
     ('SCCSStackPipeline', 'hoist-alloc', ()),
     ('directidx', 'pool', ()),
-    ('hoist-auto', 'pool', ()),
+    ('hoist-auto', 'pool', ('litkind',)),
     ('pool', 'SCCVHoistPipeline', ()),
     ('hoist-alloc', 'SCCVStackPipeline', ()),
-    ('rawstack', 'hoist-auto', ('rawkw',)),
+    ('rawstack', 'hoist-auto', ('rawkind',)),
     ('SCCSHoistPipeline', 'pool', ()),
     ('hoist-auto', 'SCCSStackPipeline', ()),
-    ('pool', 'hoist-alloc', ()),
+    ('pool', 'hoist-alloc', ('modimp',)),
 ]
 
 
@@ -134,6 +139,7 @@ def case_plan(rng, idx):
         'ifs_block_loop': rng.random() < 0.3,
         'keyword_calls': rng.random() < 0.25,
         'two_modules': rng.random() < 0.3,
+        'alias_names': rng.random() < 0.4,
         'driver_sections': rng.random() < 0.4,
         'horizontal_outer': rng.random() < 0.5,
         'max_stmts': rng.choice([2, 3]),
@@ -141,11 +147,17 @@ def case_plan(rng, idx):
     }
     if flags['ifs_block_loop']:
         flags['driver_sections'] = False        # see C37 slot 'drvsec'
-    if 'posargs' in opts or 'rawkw' in opts:
+    flags['literal_kinds'] = 'litkind' in opts
+    flags['module_level_imports'] = 'modimp' in opts
+    if 'posargs' in opts:
         flags['keyword_calls'] = True
         flags['depth'] = max(2, flags['depth'])
     elif 'rawstack' in (k1, k2) or 'RawStack' in k1 + k2:
         flags['keyword_calls'] = False
+        flags['driver_all_kinds'] = 'rawkind' not in opts
+    if any(k in ('rawstack', 'directidx', 'ftrptr') for k in (k1, k2)):
+        # applied without the SCC base stage: horizontal range notation is refused ("Discontiguous access")
+        flags['vector_notation'] = False
     specs = [mk(rng, k, flags, opts) for k in (k1, k2)]
     return flags, specs
 
@@ -178,7 +190,7 @@ def run_case(idx, rng, tier, ctx):
             return res
         res['counters']['program_runs'] += len(ref.runs)
         res['counters']['temporaries_in_project'] = case.n_temps
-        ok = 0
+        ok, pending = 0, []
         for s in specs:
             out = scclab.run_spec(case, ref, wd, s, res['counters'])
             if out['files']:
@@ -187,11 +199,15 @@ def run_case(idx, rng, tier, ctx):
             for v in out['violations']:
                 v['key'] = diagnose(PID, s, case, out, v)
                 res['violations'].append(v)
-            if out['inconclusive'] and not res['inconclusive']:
-                res['inconclusive'] = out['inconclusive']
+            if out['inconclusive']:
+                pending.append(out['inconclusive'])
             if out['nontrivial']:
                 ok += 1
         res['nontrivial'] = ok > 0
+        if pending and not res['violations'] and ok == 0:
+            # (the harness drops the violations of an inconclusive case: only a case without any verdict is one)
+            res['inconclusive'] = pending[0]
+        res['counters']['specs_without_verdict'] = len(pending)
         res['sample'] = {'specs': [s['name'] for s in specs], 'kernels': case.kernels,
                          'temporaries': case.n_temps, 'features': sorted(case.features)[:12]}
     finally:
